@@ -103,6 +103,21 @@ fn caps_through_builder(text: &str) -> Result<Option<String>, String> {
     Ok(entries.first().and_then(|e| e.caps.clone()))
 }
 
+/// capability-like texts whose letters change their UTF-8 length under case mapping (upper-case
+/// shorter: dotless i, long s, fi ligature; longer: n-apostrophe, j-caron, iota with dialytika
+/// and tonos; same: sharp s; Kelvin/Angstrom signs lower-case to ASCII / shorter forms)
+pub fn unicode_caps() -> BoxedStrategy<String> {
+    let special = proptest::sample::select(vec!["ı", "ſ", "ﬁ", "ß", "ŉ", "ǰ", "ΐ", "\u{212A}", "\u{212B}", "İ", "ǅ", "é", "ﬃ"]);
+    let piece = prop_oneof![
+        4 => special.prop_map(|s| s.to_string()),
+        2 => proptest::sample::select(vec!["cap_chown", "cap_kill", "CAP_SETUID", "all", "cap_", "_", "c", "p"]).prop_map(|s| s.to_string()),
+        1 => Just(",".to_string()),
+    ];
+    (proptest::collection::vec(piece, 0..8), proptest::option::weighted(0.6, proptest::sample::select(vec!["cap_chown,", "cap_chown ", "=e "])), "[=+-]", "[eip]{0,3}", proptest::option::weighted(0.3, proptest::sample::select(vec!["é", "ı", " cap_kill+i", "ﬁ"])))
+        .prop_map(|(name, before, op, flags, tail)| format!("{}{}{op}{flags}{}", before.unwrap_or(""), name.concat(), tail.unwrap_or("")))
+        .boxed()
+}
+
 impl Property for C19 {
     type Case = C19Case;
     const ID: &'static str = "C19";
@@ -110,7 +125,7 @@ impl Property for C19 {
         C19
     }
     fn rule(&self) -> String {
-        format!("complete enumeration of all strings of up to 5 (quick) / 6 (thorough) tokens over {:?}, plus random longer strings built from the clause grammar with 0-2 injected faults. Every string is a distinct case; non-trivial = the reference gives a definite verdict (Accept/Reject) and the text contains an operator.", TOKENS)
+        format!("complete enumeration of all strings of up to 5 (quick) / 6 (thorough) tokens over {:?}, plus random longer strings built from the clause grammar with 0-2 injected faults, texts with letters whose UTF-8 length changes under case mapping, and name lists of up to 200 names. Every string is a distinct case; non-trivial = the reference gives a definite verdict (Accept/Reject) and the text contains an operator.", TOKENS)
     }
     fn assumptions(&self) -> Vec<String> {
         vec!["reference acceptor refimpl::caps follows the C19 statement; it answers Unspecified (no accept/reject assertion) for an empty clause list, leading/trailing whitespace, a clause ending in a bare operator, 'all' inside a multi-name list and non-ASCII letters in names".into()]
@@ -144,6 +159,7 @@ impl Property for C19 {
                         .boxed()
                 }),
             },
+            Phase::Random { name: "unicode-case-mapping", cases: tier.pick(60_000, 1_000_000), strat: Arc::new(|| unicode_caps().prop_map(C19Case).boxed()) },
             // long texts: name lists of up to 200 names (with repeats, all known names, mixed
             // case), up to 12 clauses, up to 6 operator groups per clause - kilobytes of
             // well-formed text, with at most one injected fault
